@@ -176,6 +176,16 @@ CHECKS['C11'] = dict(
     note='each path is one concrete document (the solver enumerates shape/fault/position); DOSINI/CWL/DSL front ends and multi-fault documents are outside.',
     design='DESIGN.md section 2 C11')
 
+CHECKS['C06'] = dict(
+    technique='bounded symbolic execution (z3, own executor) over the shape of the DSL namespace (templates per step, parameter sources per call site, reference targets, one structural fault); oracle = independent flattening',
+    text='Reduced scope: the shape of the namespace is symbolic, its characters are not. For an entry workflow with three steps, an optional '
+         'nested workflow instantiated once or twice (thorough: a third level), every way of supplying each parameter (literal, forwarded, default, '
+         'sibling / nested / handed-down output reference) and seven kinds of invalid namespace, the real Namespace + namespace_to_flowir run and '
+         'the compiled components, their arguments, references and names are compared with an independent flattening; invalid namespaces must '
+         'raise DSLInvalidError with locations (a 20 s alarm stands for a hang). Path-budgeted in the quick tier.',
+    note='each path is one concrete namespace (the solver enumerates the skeleton); pydantic-core is compiled code and cannot be made symbolic.',
+    design='DESIGN.md section 2 C06')
+
 NOT_APPLICABLE = {
     'C07': 'round trip through the real file system, PyYAML (C) and Experiment construction: nothing on the path can be made symbolic; the technique would degenerate to example testing',
     'C15': 'quantifies over processes with different hash seeds / directory listing orders, which are not values inside one symbolic execution',
